@@ -138,16 +138,6 @@ def overlayUpd (acc : Resources) (u : Update) : Resources :=
   | some r => overlayRes acc r r.pids
   | none => acc
 
-theorem applies_some (s : Sim) (u : Update) (h : applies s u = true) :
-    ∃ r, u.resources = some r ∧ freeOf s u = setsUpd u := by
-  unfold applies at h
-  cases hr : u.resources with
-  | none => rw [hr] at h; cases h
-  | some r =>
-    rw [hr] at h
-    simp only [Bool.and_eq_true, beq_iff_eq] at h
-    exact ⟨r, rfl, takeWhile_eq_self_of_length _ _ h.1⟩
-
 theorem appliedFrom_append (base : Cid → Resources) (us vs : List Update) :
     ∀ s, appliedFrom base s (us ++ vs) = appliedFrom base s us ++ appliedFrom base (us.foldl (simUpdate base) s) vs := by
   induction us with
@@ -207,10 +197,8 @@ theorem not_applies_of_taken (s : Sim) (u : Update) (it : Item) (hit : it ∈ se
   | true =>
     exfalso
     obtain ⟨r, _, hfree⟩ := applies_some s u happ
-    have hall := (takeWhile_length_eq_iff _ _).1
-      (by rw [show List.takeWhile _ (setsUpd u) = freeOf s u from rfl, hfree]) it hit
-    simp only [Bool.not_eq_true', List.contains_eq_mem, decide_eq_false_iff_not] at hall
-    exact hall ht
+    exact claimedPrefix_not_taken u.containerId (setsUpd u) s.taken it
+      (by rw [show claimedPrefix s.taken u.containerId (setsUpd u) = freeOf s u from rfl, hfree]; exact hit) ht
 
 theorem taken_mono (base : Cid → Resources) (s : Sim) (u : Update) (x : Cid × Item) (h : x ∈ s.taken) :
     x ∈ (simUpdate base s u).taken := by
@@ -231,9 +219,8 @@ theorem appliedFrom_free (base : Cid → Resources) (us : List Update) :
         simp only [List.mem_singleton] at hv
         subst hv
         obtain ⟨r, _, hfree⟩ := applies_some s v happ
-        have hall := (takeWhile_length_eq_iff _ _).1 (by rw [show List.takeWhile _ (setsUpd v) = freeOf s v from rfl, hfree]) it hit
-        simp only [Bool.not_eq_true', List.contains_eq_mem, decide_eq_false_iff_not] at hall
-        exact hall hmem
+        exact claimedPrefix_not_taken v.containerId (setsUpd v) s.taken it
+          (by rw [show claimedPrefix s.taken v.containerId (setsUpd v) = freeOf s v from rfl, hfree]; exact hit) hmem
       · cases hv
     · exact ih _ v hv it hit (taken_mono base s u _ hmem)
 
